@@ -21,12 +21,18 @@ from ..oracle import c05_topo as O
 RULES["C05"] = (
     "Face arrays as plain index triples with NO restriction (repeated indices inside a face, repeated faces, edges "
     "shared by 3+ faces, unreferenced vertices): (a) enumeration of every array of F<=2 faces over indices 0..3 "
-    "(all 64 triples per face) plus a seeded 1/19 stride of F=3 in quick / all of F<=3 in thorough, each with vertex "
+    "(all 64 triples per face) plus a seeded 1/29 stride of F=3 in quick / all of F<=3 in thorough, each with vertex "
     "count max+1 and max+2; (b) Hypothesis F<=14 over V<=9 (free triples, distinct triples, fans around one edge, "
     "copies / reversed / rotated copies of earlier faces); (c) closed oriented templates (genus 0 and 1, 1-3 bodies) "
     "under random vertex relabelling, face permutation, per-face cyclic rotation, face deletion, duplication, "
-    "flipping and inserted unreferenced vertices. Vertex positions are generic random (seeded), the mesh is built "
-    "with process=False, validate=False and the cached properties are read in a seeded random order. Oracle: direct "
+    "flipping and inserted unreferenced vertices; "
+    "(d) enumeration of two or three small closed pieces (pillow, tetrahedron, octahedron) which are disjoint or touch "
+    "in one vertex (pinch), one edge or one triangle, in both orientations; (b) and (c) also glue pieces at randomly "
+    "coinciding labels / welded vertices. Every case carries a uniform scale from 1e-6 .. 1e6 for its generic random "
+    "(seeded) vertex positions and a drawn history of 0-3 in-place transforms (translation, uniform scale, rotation, "
+    "reflection, general affine); the mesh is built with process=False, validate=False, a seeded random subset of the "
+    "cached properties is read in random order before each transform and all of them after the last one, and every read "
+    "is compared with the oracle restarted from the current face and vertex arrays. Oracle: direct "
     "counting in plain python (tuples, dict, Counter, union-find). Non-trivial: at least one sorted edge occurs in "
     "two or more different faces."
 )
@@ -40,6 +46,13 @@ ASSUMPTIONS["C05"] = [
     "edge in exactly two faces, every vertex link one cycle) and the smallest interior angle exceeds 1e-4 rad, far from "
     "the documented tol.merge=1e-8 zeroing in triangles.angles",
     "grouping.group_rows / unique_rows are exercised through the mesh properties only (their own contract is C06)",
+    "face_angles of a face are compared with atan2-form angles when its smallest angle exceeds 1e-4 rad; a face which "
+    "repeats an index must have all-zero angles (triangles.angles docstring: degenerate angles are returned as zero)",
+    "split() with its defaults (repair=True, only_watertight=True) may repair or drop OPEN pieces; only what is "
+    "documented is demanded: closed pieces (>= 4 faces for only_watertight) come back exactly, nothing is merged or "
+    "invented, every piece returned by only_watertight=True is closed",
+    "apply_transform reverses every face for a reflection: the oracle restarts from mesh.faces / mesh.vertices (data), "
+    "never from a cached query",
 ]
 
 # vertex_face_indices logs a warning with a traceback for every degenerate face array; keep the run readable
@@ -221,7 +234,7 @@ def b_topo(case, ctx):
         labels.append("has:multi_face_component")
         if len(w["w_fcomp"]) > len([p for p in w["w_vcomp"] if len(p) > 1 or any(p & set(f) for f in faces)]):
             # more face components than vertex components: pieces touch without being adjacent
-            labels.append("has:components_touch_closed" if w["w_water"] else "has:components_touch")
+            labels.append(f"{src.split(':')[0]}:components_touch_closed" if w["w_water"] else "has:components_touch")
     if any(len(ks) == 2 for ks in occ.values()) and not w["w_wind"]:
         labels.append("has:winding_inconsistent")
     if any(r[2][0] == r[2][1] for r in w["w_adj"]):
@@ -813,19 +826,19 @@ def s_glued(ctx):
 @subcheck("C05", "enum_f3", shards={"quick": 16, "thorough": 16})
 def s_enum_f3(ctx):
     if ctx.tier == "quick":
-        ctx.enumerate("C05.topo", enum_three(19, 7 * ctx.seed), label="F=3_stride19_sample", complete=False)
+        ctx.enumerate("C05.topo", enum_three(29, 7 * ctx.seed), label="F=3_stride29_sample", complete=False)
     else:
         ctx.enumerate("C05.topo", enum_three(1, 0), label="all_face_arrays_F=3_over_4_indices_x_{V,V+1}")
 
 
-@subcheck("C05", "soup", shards={"quick": 4, "thorough": 12})
+@subcheck("C05", "soup", shards={"quick": 6, "thorough": 12})
 def s_soup(ctx):
-    ctx.given("C05.topo", soup(), n={"quick": 4000, "thorough": 100000})
+    ctx.given("C05.topo", soup(), n={"quick": 3000, "thorough": 100000})
 
 
-@subcheck("C05", "pool", shards={"quick": 4, "thorough": 12})
+@subcheck("C05", "pool", shards={"quick": 6, "thorough": 12})
 def s_pool(ctx):
-    ctx.given("C05.topo", pool_case(), n={"quick": 1400, "thorough": 25000})
+    ctx.given("C05.topo", pool_case(), n={"quick": 1200, "thorough": 25000})
 
 
 REQUIRED_CLASSES["C05"] = [
@@ -843,4 +856,15 @@ REQUIRED_CLASSES["C05"] = [
     "has:multi_face_component",
     "closed_manifold:euler=2",
     "closed_manifold:euler=0",
+    "closed_manifold:scale=1e-06",
+    "closed_manifold:scale=1e-05",
+    "closed_manifold:scale=0.0001",
+    "closed_manifold:scale=1e+06",
+    "glued:components_touch_closed",
+    "warm:translate",
+    "warm:scale",
+    "warm:rigid",
+    "warm:mirror",
+    "warm:affine",
+    "fresh",
 ]
